@@ -43,7 +43,9 @@ RULE = ("cases from random.Random(seed): (A) structure_factor_mean on noise / wa
         "same spacings (finite and within half a bin iff the first bracket of the smoothed model curve is valid, nan "
         "otherwise) and widths 0.25 / 0.5 bins at power-of-two stretches (covariance within 1e-3 bin); general fields with a unique highest mode (runner-up at another wave "
         "number below 1 - 1e-6 of it): covariance, field scaling and rolling within one bin; "
-        "distinct = distinct (method, case) descriptions")
+        "(D) SEQUENCES: grids sharing the shape and an aggregate (swapped spacings, mean spacing, volume, longest side, shape "
+        "only) analysed interleaved, repeated and after raising calls with all three methods -- every result must equal the "
+        "first result in a fresh interpreter; distinct = distinct (method, case) descriptions")
 
 STRETCH = [0.03125, 0.25, 0.5, 2.0, 8.0, 32.0]
 DECADES = [-3, -2, -1, 0, 1, 2, 3]
@@ -705,6 +707,9 @@ def check(ctx: vlib.Ctx) -> int:
                 f_["from"] = "sample on which the Coq model and the implementation disagree"
             failures.extend(confirmed)
     boost = 2 if (ctx.broken or fell_back) else 1
+    # sequence dimension: reference interpreters run concurrently with the streams below
+    seq_groups = sc.collision_groups(rng, ctx.scale(5, 15))
+    seq_procs = sc.start_fresh_references(seq_groups, "length scale")
     known_f7: list[str] = []
     def guarded(method, inp, fn):
         """an exception of the oracle's own calls into the library on a valid input is a failure with that input"""
@@ -780,6 +785,7 @@ def check(ctx: vlib.Ctx) -> int:
             ctx.count("peak_field_skipped", r[0]["skip"])
             continue
         failures.extend(r)
+    failures.extend(sc.sequence_oracle(ctx, rng, seq_groups, seq_procs, "C17", "length scale"))
     if known_f7:
         ctx.known_printed.append("structure_factor_maximum with default smoothing is not scale covariant: " + known_f7[0]
                                  + (f" (+{len(known_f7) - 1} more inputs of this class)" if len(known_f7) > 1 else ""))
